@@ -19,6 +19,9 @@ import numpy as np
 from ..oracles import tables_ref as T
 
 LEVEL = "exploration"
+KF_V0 = "shipped:nuleptonsim-cdf-first-value"
+KF_I8 = "grid-fits:int8-axis"
+AXIS_INT_DTYPES = [np.int16, np.int32, np.int64, np.uint8, np.uint16]
 DTYPES = [np.float32, np.float64, np.int16, np.int32, np.int64, np.uint8, np.uint16, np.int8, np.uint32]
 ALPHA = list("abcdefghijklmnopqrstuvwxyzABCDEFGHIJKLMNOPQRSTUVWXYZ0123456789_+-.:'\"\\ ")
 
@@ -48,8 +51,12 @@ def gen_grid(rng):
     axes = []
     for n in shape:
         a = np.sort(rng.uniform(-10, 10, n)) if rng.random() < 0.7 else np.cumsum(rng.integers(1, 5, n)).astype(np.float64)
-        if rng.random() < 0.15:
+        r_ = rng.random()
+        if r_ < 0.15:
             a = a.astype(np.float32)
+        elif r_ < 0.3:
+            # integer axes (strictly increasing whole numbers)
+            a = np.cumsum(rng.integers(1, 5, n)).astype(AXIS_INT_DTYPES[int(rng.integers(len(AXIS_INT_DTYPES)))])
         axes.append(a)
     names = []
     for i in range(nd):
@@ -74,6 +81,23 @@ def run(ctx):
     work = tempfile.mkdtemp(prefix="c18_", dir=os.path.join(os.environ.get("NSSMON_ROOT", "."), ".work"))
     try:
         ngr = ctx.pick(300, 4000)
+        # the open finding's fixed witness: an int8 axis through both formats
+        for fmt, ext in (("hdf5", "h5"), ("fits", "fits")):
+            f = os.path.join(work, f"i8.{ext}")
+            ax8 = np.array([1, 2, 3], dtype=np.int8)
+            ctx.count("roundtrip")
+            try:
+                NssGrid(np.array([10.0, 20.0, 30.0]), [ax8.copy()], ["x"]).write(f, format=fmt)
+                r = NssGrid.read(f, format=fmt)
+                if not same_array(r.axes[0], ax8):
+                    back = np.asarray(r.axes[0])
+                    key = KF_I8 if fmt == "fits" and back.dtype.kind == "b" else "roundtrip"
+                    ctx.violation(key, f"{fmt} round trip of a grid with the int8 axis [1, 2, 3]: the axis reads back as {back.tolist()} ({back.dtype})", {"format": fmt, "axis_dtype": "int8"})
+            except Exception as e:
+                ctx.exception("roundtrip", f"{fmt} write/read of a grid with an int8 axis raised", e, {"format": fmt})
+            finally:
+                if os.path.exists(f):
+                    os.remove(f)
         for gi in range(ngr):
             data, axes, names = gen_grid(rng)
             try:
@@ -286,8 +310,12 @@ def run(ctx):
                     if problems:
                         if judged:
                             ctx.violation("shipped", f"{tag}: " + "; ".join(problems), {"file": tag})
+                        elif problems == ["a CDF row does not start at 0"]:
+                            # package data that no sampler opens (Taus reads nupyprop_tables only): open finding
+                            nbad = int(np.sum(raw[..., 0] != 0))
+                            ctx.violation(KF_V0, f"{tag}: {nbad} of {raw[..., 0].size} CDF rows do not start at 0 (first values up to {float(raw[..., 0].max())!r})", {"file": tag})
                         else:
-                            ctx.observe(f"{tag}_not_conforming", problems)
+                            ctx.violation("shipped", f"{tag}: " + "; ".join(problems), {"file": tag})
         ctx.observe("shipped_table_files_scanned", nfiles)
         ctx.exhaustive_subspaces.append("every node of every shipped nu2tau_cdf / nu2tau_pexit table (versions 0-3)")
     finally:
@@ -300,5 +328,5 @@ def run(ctx):
         ctx.require(m)
     return ctx.finish(
         rule="random grids (1-4 dimensions, axis lengths 1-6, 9 float/int dtypes, axis names of 1-10 printable ASCII characters incl. internal spaces, quotes, backslashes and names differing only in case) written/read in both formats; slices at every node of every axis (by index and by name) and at 2 interior coordinates; non-decreasing rows with 35 % plateau steps, queries strictly inside the range incl. exact node values; a case is a distinct grid or (row, query)",
-        assumptions=["axis names without '/', leading/trailing blanks, '.'/'..' and non-ASCII (HDF5 path syntax / FITS string rules: what both formats can carry)", "slicing along an axis of length 1 is not exercised (degenerate range)", "version-0 nuleptonsim tables are reported, not judged (the pipeline cannot select them)"],
+        assumptions=["axis names without '/', leading/trailing blanks, '.'/'..' and non-ASCII (HDF5 path syntax / FITS string rules: what both formats can carry)", "slicing along an axis of length 1 is not exercised (degenerate range)", "the version-0 nuleptonsim tables (package data no sampler opens) are judged like the others; their CDF rows that start above 0 are the open finding shipped:nuleptonsim-cdf-first-value", "an int8 axis cannot be carried by the FITS writer (astropy stores it as a logical column): open finding grid-fits:int8-axis, fixed witness"],
     )
